@@ -148,3 +148,25 @@ Theorem C11_gcm_paths_need_contexts :
     /\ (forall c', fst (fst (fill cf (Some (false, false)) c)) = Done c' -> obj c' = obj c).
 Proof. exact paths_differ_without_contexts. Qed.
 Print Assumptions C11_gcm_paths_need_contexts.
+
+(* several contexts in one frame (extract_iter's per-context try/except): every context comes
+   out exactly as fill_context gives it in isolation, whatever happened to earlier ones; the
+   frame's errors are the failures in order; the hook calls are the concatenation *)
+Theorem C11_frame_isolated : forall cf rc cs,
+  frame_fill cf rc cs =
+  (map (iso_ctx cf (Some (true, rc))) cs, somes (map (iso_err cf (Some (true, rc))) cs),
+   concat (map (iso_log cf (Some (true, rc))) cs)).
+Proof. exact frame_isolated. Qed.
+Print Assumptions C11_frame_isolated.
+
+Theorem C11_frame_nth : forall cf rc cs i c,
+  nth_error cs i = Some c ->
+  nth_error (fst (fst (frame_fill cf rc cs))) i = Some (iso_ctx cf (Some (true, rc)) c).
+Proof. exact frame_nth. Qed.
+Print Assumptions C11_frame_nth.
+
+(* histories: the verdict on a step is independent of the steps before it (each step is
+   evaluated against the hook tables in force at that time, nothing else is remembered) *)
+Theorem C11_history_stateless : forall a b, hcase_ok (a ++ b) = hcase_ok a && hcase_ok b.
+Proof. exact history_stateless. Qed.
+Print Assumptions C11_history_stateless.
